@@ -1,7 +1,11 @@
 """Solver plumbing shared by engine-Z obligations: counted / timed checks, witness decoding, translator validation."""
 from __future__ import annotations
 
+import json
+import os
 import re
+import subprocess
+import sys
 import time
 from typing import Any, Dict, List, Optional
 
@@ -32,13 +36,58 @@ class Tally:
         self.inconclusive: List[Dict[str, Any]] = []
         self.samples: List[Dict[str, Any]] = []
         self.violations: List[Dict[str, Any]] = _VList()
+        self.kept: List[Dict[str, Any]] = []      # (what, z3 verdict, SMT-LIB text) of decided queries, for the second solver
+
+    def cross_check(self) -> Dict[str, Any]:
+        """'diff two solvers': a spread of the decided queries is re-asked to cvc5 (SMT-LIB text printed by z3), in a
+        killable subprocess.  sat/unsat against unsat/sat is a solver disagreement; cvc5 unknown / timeout is only counted."""
+        k = int(os.environ.get("VF_Z_CROSS", "6"))
+        if not self.kept or k <= 0:
+            return {"asked": 0}
+        n = len(self.kept)
+        picks = sorted({(i * (n - 1)) // max(1, k - 1) for i in range(min(k, n))})
+        sample = [self.kept[i] for i in picks]
+        per = int(os.environ.get("VF_Z_CROSS_MS", "15000"))
+        t0 = time.perf_counter()
+        try:
+            p = subprocess.run([sys.executable, "-m", "tplz3.cross"], input=json.dumps({"per_ms": per, "queries": sample}),
+                               capture_output=True, text=True, timeout=per / 1000.0 * len(sample) + 30,
+                               cwd=os.path.dirname(os.path.dirname(os.path.abspath(__file__))))
+            so = p.stdout
+        except subprocess.TimeoutExpired as e:
+            so = e.stdout.decode("utf8", "replace") if isinstance(e.stdout, bytes) else (e.stdout or "")
+        try:
+            answers = json.loads(so.strip().splitlines()[-1]) if so.strip() else None
+            if answers is not None:
+                answers += ["unknown"] * (len(sample) - len(answers))
+        except ValueError:
+            answers = None
+        out = {"asked": len(sample), "solver": "cvc5 1.4.0 (strings-exp, tlimit-per %d ms)" % per, "agree": 0, "undecided": 0,
+               "disagree": [], "wall_s": round(time.perf_counter() - t0, 2)}
+        if answers is None:
+            out["undecided"] = len(sample)
+            return out
+        for q, a in zip(sample, answers):
+            if a in ("sat", "unsat"):
+                if a == q["z3"]:
+                    out["agree"] += 1
+                else:
+                    out["disagree"].append({"what": q["what"], "z3": q["z3"], "cvc5": a})
+            else:
+                out["undecided"] += 1
+        return out
 
     def result(self, name: str, bound: str = "", **extra) -> Dict[str, Any]:
         verdict = "confirmed"
+        cross = self.cross_check()
         if self.violations:
             verdict = "refuted"
         elif self.inconclusive:
             verdict = "inconclusive"
+        if cross.get("disagree"):
+            # one of the two solvers is wrong: nothing this obligation says is believed
+            verdict = "solver-disagreement"
+        extra = dict(extra, crosscheck=cross)
         d = dict(name=name, verdict=verdict, queries_total=self.queries, discharged=self.discharged,
                  solver_s=round(self.solver_s, 3), inconclusive=self.inconclusive[:20], samples=self.samples[:12],
                  violations=list(self.violations[:20]), bound=bound or f"|x| <= {MAXLEN}, code points <= U+2FFFF")
@@ -63,6 +112,11 @@ def check(tally: Tally, constraints, what: str, timeout_ms: int = 20000, x=None)
     r = str(s.check())
     tally.solver_s += time.perf_counter() - t0
     tally.queries += 1
+    if r in ("sat", "unsat") and len(tally.kept) < 600:
+        try:
+            tally.kept.append({"what": what, "z3": r, "smt2": s.to_smt2()})
+        except Exception:
+            pass
     if r == "unsat":
         tally.discharged += 1
         return "unsat", None
